@@ -167,6 +167,27 @@ Fixpoint list_eqb {A} (eqb : A -> A -> bool) (a b : list A) : bool :=
   | _, _ => false
   end.
 
+(* ---- handle_pushed: every watcher registered for the event type is called; an exception raised by one watcher is caught
+   INSIDE the loop body (try/except around the single call), so it neither escapes nor stops the iteration.
+   A watcher is (id, raises). *)
+Definition watcher := (Z * bool)%type.
+Inductive outcome := Returned | Raised.
+Definition call_watcher (w : watcher) : outcome := if snd w then Raised else Returned.
+
+Fixpoint handle_pushed (ws : list watcher) : list Z * outcome :=      (* (ids called in order, what escapes the method) *)
+  match ws with
+  | [] => ([], Returned)
+  | w :: ws' =>
+    match call_watcher w with
+    | Returned | Raised (* logged, ignored *) => let '(calls, o) := handle_pushed ws' in (fst w :: calls, o)
+    end
+  end.
+
+(* correspondence: watchers in the iteration order of the real set object, and the ids the implementation called *)
+Definition c05_push_case (ws : list watcher) (impl_calls : list Z) : bool :=
+  let '(calls, o) := handle_pushed ws in
+  zlist_eqb calls impl_calls && match o with Returned => true | Raised => false end.
+
 (* per-read observation: (#events so far, buffered bytes or -1 when defunct, 1 if _current_frame is set) *)
 Definition obs_of (n : Z) (st : istate) : Z * Z * Z :=
   (n, match st with Live b => blen b | Dead => -1 end, match cur_of st with Some _ => 1 | None => 0 end).
